@@ -484,6 +484,7 @@ func init() {
 			sched.sleepYield()
 			c := newChan(1)
 			c.buf = append(c.buf, zero(namedType(fr, "time", "Time")))
+			c.vcs = append(c.vcs, nil)
 			return c
 		},
 	}
